@@ -1,0 +1,15 @@
+//go:build verif
+
+package NoKV
+
+// VerifIterRotate seals the active memtable without scheduling its flush.
+func (db *DB) VerifIterRotate() { db.lsm.VerifIterRotate() }
+
+// VerifIterFlushOldest synchronously flushes the oldest immutable memtable into level 0.
+func (db *DB) VerifIterFlushOldest() (bool, error) { return db.lsm.VerifIterFlushOldest() }
+
+// VerifIterShape reports (#immutable memtables, #level-0 tables, #tables in deeper levels).
+func (db *DB) VerifIterShape() (imm, l0, deeper int) { return db.lsm.VerifIterShape() }
+
+// VerifIterNewestL0Blocks returns the entry count of every block of the newest level-0 table.
+func (db *DB) VerifIterNewestL0Blocks() []int { return db.lsm.VerifIterNewestL0Blocks() }
